@@ -226,3 +226,15 @@ impl<T: ?Sized> RwLock<T> {
     pub(crate) fn verif_writer(&self) -> bool { self.0.model_writer() }
     pub(crate) fn verif_addr(&self) -> usize { &self.0 as *const _ as *const u8 as usize }
 }
+#[cfg(feature = "parking_lot")]
+#[allow(dead_code)]
+impl<T: ?Sized> Mutex<T> {
+    pub(crate) fn verif_data_ptr(&self) -> *mut T { self.0.model_data_ptr() }
+    pub(crate) fn verif_locked(&self) -> bool { self.0.model_locked() }
+}
+#[cfg(feature = "parking_lot")]
+#[allow(dead_code)]
+impl Condvar {
+    pub(crate) fn verif_epoch(&self) -> usize { self.0.model_epoch() }
+    pub(crate) fn verif_waiters(&self) -> usize { self.0.model_waiters() }
+}
